@@ -33,13 +33,14 @@ MODULES = [('Demographics1D', 'dadi.Demographics1D'), ('Demographics2D', 'dadi.D
            ('Demographics3D', 'dadi.Demographics3D'), ('portik_models_2d', 'dadi.PortikModels.portik_models_2d'),
            ('portik_models_3d', 'dadi.PortikModels.portik_models_3d'), ('DemogSelModels', 'dadi.DFE.DemogSelModels')]
 PTS = (16, 20, 24)
-BOUNDS = dict(size=(1e-2, 100.0), time=(0.0, 3.0), mig=(0.0, 10.0), sel=(-20.0, 5.0), frac=(0.02, 0.98))
+BOUNDS = dict(size=(1e-2, 100.0), time=(0.0, 3.0), mig=(0.0, 10.0), frac=(0.02, 0.98))
+SEL_MAX = 3.0
 TF_DEFAULT = 1e-3
 # seconds per implicit step, (dimension, pts) -> (constant parameters, time-dependent parameters); measured in this sandbox
 STEP_COST = {1: {16: (2e-5, 4e-5), 20: (2e-5, 4e-5), 24: (3e-5, 5e-5)},
              2: {16: (4e-5, 1.4e-4), 20: (7e-5, 2.0e-4), 24: (7e-5, 2.3e-4)},
              3: {16: (6.5e-4, 1.4e-3), 20: (1.6e-3, 2.6e-3), 24: (2.8e-3, 4.4e-3)}}
-RUN_BUDGET = {'quick': {1: 0.05, 2: 0.35, 3: 1.1}, 'thorough': {1: 0.2, 2: 0.8, 3: 2.5}}     # seconds per draw (three grids)
+RUN_BUDGET = {'quick': {1: 0.1, 2: 0.5, 3: 1.5}, 'thorough': {1: 0.3, 2: 1.0, 3: 3.0}}     # seconds per draw (three grids)
 
 # ----------------------------------------------------------------------------------------------- discovery (run time)
 def discover(dadi):
@@ -87,13 +88,18 @@ def draw(rng, names, edge=True):
             elif u < 0.90: v = rng.uniform(lo, hi)
             else: v = hi
         elif k == 'sel':
-            lo, hi = BOUNDS['sel']
-            v = rng.uniform(lo, hi) if (u < 0.85 or not edge) else 0.0
+            v = 0.0                      # drawn below, relative to the sizes
         elif k == 'frac':
             v = rng.uniform(*BOUNDS['frac'])
         else:
             v = rng.uniform(0.1, 1.0)
         p[n] = coarse(v)
+    # selection: the grids 16..24 resolve |gamma| * nu up to a few units only (beyond that from_phi returns negative entries
+    # on these coarse grids -- a resolution limit, not a property of the models): |gamma| * max(1, largest size) <= SEL_MAX
+    big = max([1.0] + [v for n, v in p.items() if kind(n) == 'size'])
+    for n in names:
+        if kind(n) == 'sel':
+            p[n] = 0.0 if (edge and rng.random() < 0.12) else coarse(rng.uniform(-SEL_MAX, SEL_MAX) / big)
     return p
 
 def model_dim(m):
@@ -146,8 +152,16 @@ def fit_budget(m, p, d, tier, scale=1.0):
 def vec(m, p):
     return [p[n] for n in m['pn']] if m['pn'] else None
 
-def ns_for(rng, d):
-    return tuple(int(rng.integers(2, 7)) for _ in range(d))
+def ns_for(rng, d, m=None):
+    ns = tuple(int(rng.integers(2, 7)) for _ in range(d))
+    if m is not None and ploidy_even(m): ns = tuple(n + n % 2 for n in ns)     # from_phi_inbreeding: ns divisible by the ploidy
+    return ns
+
+def ploidy_even(m):
+    if 'inb' not in m:
+        try: m['inb'] = 'from_phi_inbreeding' in inspect.getsource(m['f'])
+        except Exception: m['inb'] = False
+    return m['inb']
 
 # ----------------------------------------------------------------------------------------------- evaluation of closed Exprs
 class Stuck(Exception):
@@ -440,10 +454,29 @@ def run_model(chk, ctx, m, p, ns, record=True):
                 else: chk.k_ok('c15.trace')
     return ok
 
+def first_bindings(f, k):
+    """names bound by the first tuple unpacking in the byte code of `f` (or the first k stores when there is none)"""
+    import dis
+    ins = list(dis.get_instructions(f))
+    start = next((i + 1 for i, x in enumerate(ins) if x.opname == 'UNPACK_SEQUENCE'), 0)
+    names = []
+    for x in ins[start:]:
+        if x.opname.startswith('STORE_'):
+            names += list(x.argval) if isinstance(x.argval, tuple) else [x.argval]
+        elif start and names: break
+        if len(names) >= k: break
+    return names[:k]
+
 def arity_checks(chk, ctx, m, rng):
     """vectors of a wrong length must be refused (models with named parameters)"""
     dadi = ctx['dadi']; driver = ctx['driver']; name = m['name']
     k = len(m['pn'])
+    # the names: the first local variables the function binds (tuple unpacking of the vector) are the named parameters, in order
+    locs = first_bindings(m['f'], k)
+    chk.l3((name, 'names'))
+    if locs != m['pn']:
+        chk.fail('%s:names' % name, '%s.__param_names__ = %r but the function unpacks its vector into %r' % (name, m['pn'], locs),
+                 case_input('arity', m, None, None, 6))
     if k == 0:
         chk.stat('arity:unnamed(argument documented unused)'); return
     d = model_dim(m) if len(m['argn']) == 3 else None
@@ -520,7 +553,7 @@ def nesting_check(chk, ctx, byname, group, a, b, args, rng, reps=1):
             va = pair_args(args, pb)
         except Stuck as e:
             chk.broken.append('model: nesting pair %s -> %s: %s' % (a, b, e)); return
-        ns = ns_for(rng, d); pts = int(PTS[int(rng.integers(2))])
+        ns = ns_for(rng, d, mb); pts = int(PTS[int(rng.integers(2))])
         inp = dict(kind='nesting', group=group, a=a, b=b, args=args, params_b=pb, ns=list(ns), pts=pts)
         chk.l3(('nest', a, b))
         try:
@@ -653,7 +686,7 @@ def run(chk, ctx):
     models, byname = setup(chk, ctx)
     chk.rule = ('every function exposing __param_names__ in the six model modules (found by run-time introspection) is run at parameters '
                 'drawn inside the documented bounds by parameter name (nu*: log-uniform [1e-2,100] + the bounds and 1; T*: uniform [0,3] + 0 and 3; '
-                'm*: 0 / small / uniform [0,10] / 10; gamma*: uniform [-20,5] + 0; s, f, F: uniform (0.02,0.98)); the epoch lengths are then shrunk '
+                'm*: 0 / small / uniform [0,10] / 10; s, f, F: uniform (0.02,0.98); gamma*: 0 or uniform with |gamma|*max(1, largest size) <= 3 — the grids 16..24 do not resolve stronger selection); the epoch lengths are then shrunk '
                 '(inside [0,3]) so that the three runs pts=16,20,24 fit a time budget (the cost is T*max(1/(4 nu), sum m, |gamma|/2)/timescale_factor '
                 'steps). Distinct = (model, grid) / (model, wrong length) / nesting pair / (symmetric model, class). Nesting pairs and symmetric models: '
                 'hand table of Model/ModelPairs.lean, parameters of the simpler model drawn as above.')
@@ -685,7 +718,7 @@ def run(chk, ctx):
                      case_input('run', m, None, None, 6))
             continue
         chk.stat('models_%dD' % d)
-        for i in range(n_draws):
+        for i in range(n_draws + (1 if (tier == 'quick' and d <= 2) else 0)):
             p = draw(rng, m['pn'])
             p, lam = fit_budget(m, p, d, tier)
             chk.stat('T_shrunk' if lam < 1 else 'T_as_drawn')
@@ -693,7 +726,7 @@ def run(chk, ctx):
                 if kind(n) == 'time' and v == 0: chk.stat('edge:T=0')
                 if kind(n) == 'mig' and v == 0: chk.stat('edge:m=0')
                 if kind(n) == 'size' and v in BOUNDS['size']: chk.stat('edge:nu_at_bound')
-            ns = ns_for(rng, d)
+            ns = ns_for(rng, d, m)
             ok = run_model(chk, ctx, m, p, ns)
             if i == 0 and (tier == 'thorough' or rng.random() < 0.25) and ok:
                 extrap_check(chk, ctx, m, p, ns)
